@@ -9,11 +9,12 @@ from .pyast import Unrecognised, clean, cstr, unparse
 
 
 class Ctx:
-    def __init__(self, attr_vars=(), enum_prefixes=(), identity_calls=(), attr_targets=()):
+    def __init__(self, attr_vars=(), enum_prefixes=(), identity_calls=(), attr_targets=(), prims=None):
         self.attr_vars = set(attr_vars) | set(attr_targets)  # source texts treated as variables, e.g. "self.prefix"
         self.attr_targets = set(attr_targets)    # attributes the method may assign / append to, e.g. "self.negative_option_strings"
         self.enum_prefixes = tuple(enum_prefixes)  # "DashVariant." ... : enum members become string constants
         self.identity_calls = set(identity_calls)  # callables that return their argument, e.g. "DashVariant", "list"
+        self.prims = dict(prims or {})           # external pure helpers with a primitive in MiniPy, e.g. "utils.get_nesting_level": "ENestLevel"
         self.local_defs = {}
         self.assigned = []
 
@@ -125,12 +126,35 @@ def expr(n, c: Ctx, subst=None) -> str:
         if isinstance(n.op, ast.Sub):
             return f"(ESub {expr(n.left, c, subst)} {expr(n.right, c, subst)})"
         if isinstance(n.op, ast.Mult):
-            return f"(ERepeat {cstr(one_char(n.left, 'repetition'))} {expr(n.right, c, subst)})"
+            if isinstance(n.left, ast.Constant):
+                return f"(ERepeat {cstr(one_char(n.left, 'repetition'))} {expr(n.right, c, subst)})"
+            return f"(EMul {expr(n.left, c, subst)} {expr(n.right, c, subst)})"
     if isinstance(n, ast.Call) and isinstance(n.func, ast.Attribute) and not n.keywords and len(n.args) == 1:
         if n.func.attr == "lstrip":
             return f"(ELstrip {expr(n.func.value, c, subst)} {cstr(one_char(n.args[0], 'lstrip'))})"
         if n.func.attr == "endswith" and isinstance(n.args[0], ast.Constant) and isinstance(n.args[0].value, str):
             return f"(EEndswith {expr(n.func.value, c, subst)} {cstr(n.args[0].value)})"
+    # ---- third group (FieldWrapper.duplicate_if_needed) ----
+    if isinstance(n, ast.BoolOp) and len(n.values) >= 2:
+        k = "EAnd" if isinstance(n.op, ast.And) else "EOr"
+        vs = [expr(v, c, subst) for v in n.values]
+        out = vs[-1]
+        for v in reversed(vs[:-1]):      # a op b op c evaluates like a op (b op c)
+            out = f"({k} {v} {out})"
+        return out
+    if isinstance(n, ast.Subscript) and isinstance(n.slice, ast.Constant) and isinstance(n.slice.value, int) \
+            and not isinstance(n.slice.value, bool) and 0 <= n.slice.value < 1000:
+        return f"(EIndex {expr(n.value, c, subst)} {n.slice.value})"
+    if isinstance(n, ast.Call) and not n.keywords:
+        fsrc = unparse(n.func)
+        if fsrc == "isinstance" and len(n.args) == 2:
+            cls = n.args[1].elts if isinstance(n.args[1], ast.Tuple) else [n.args[1]]
+            if cls and all(isinstance(k, ast.Name) and k.id in ("list", "tuple", "str") for k in cls):
+                return f"(EIsInst {expr(n.args[0], c, subst)} [{'; '.join(cstr(k.id) for k in cls)}])"
+        if fsrc == "list" and len(n.args) == 1:
+            return f"(EToList {expr(n.args[0], c, subst)})"
+        if fsrc in c.prims and len(n.args) == 1:
+            return f"({c.prims[fsrc]} {expr(n.args[0], c, subst)})"
     raise Unrecognised(f"expression outside the MiniPy fragment: {src[:100]}")
 
 
@@ -199,15 +223,16 @@ def stmt(s, c: Ctx, subst=None) -> list[str]:
                 for x in (a.id, m.value.id, b.id):
                     c.note(x)
                 return [f"SUnpack3 {cstr(a.id)} {cstr(m.value.id)} {cstr(b.id)} {expr(s.value, c, subst)}"]
-    if isinstance(s, ast.Assert) and s.msg is None:
-        return [f"SAssert {expr(s.test, c, subst)}"]
-    if isinstance(s, ast.Raise) and s.cause is None and isinstance(s.exc, ast.Call) and isinstance(s.exc.func, ast.Name) \
+    if isinstance(s, ast.Assert) and (s.msg is None or (isinstance(s.msg, ast.Constant) and isinstance(s.msg.value, str))):
+        return [f"SAssert {expr(s.test, c, subst)}"]       # the message is not modelled
+    if isinstance(s, ast.Raise) and s.cause is None and isinstance(s.exc, ast.Call) and isinstance(s.exc.func, (ast.Name, ast.Attribute)) \
             and not s.exc.keywords and all(isinstance(a, (ast.Constant, ast.JoinedStr)) for a in s.exc.args):
         for a in s.exc.args:  # the message is not modelled, but it must be a pure string expression of the fragment's variables
             for v in (a.values if isinstance(a, ast.JoinedStr) else []):
                 if isinstance(v, ast.FormattedValue) and not isinstance(v.value, (ast.Name, ast.Constant)):
-                    raise Unrecognised(f"raise: message part {unparse(v)}")
-        return [f"SRaise {cstr(s.exc.func.id)}"]
+                    expr(v.value, c, subst)   # raises Unrecognised unless it is an expression of the fragment
+        cls = s.exc.func.id if isinstance(s.exc.func, ast.Name) else s.exc.func.attr   # utils.SomeError -> "SomeError"
+        return [f"SRaise {cstr(cls)}"]
     if isinstance(s, ast.Expr) and isinstance(s.value, ast.Call) and isinstance(s.value.func, ast.Attribute) \
             and unparse(s.value.func.value) in c.attr_targets and len(s.value.args) == 1 and not s.value.keywords:
         tgt = unparse(s.value.func.value)
